@@ -23,6 +23,7 @@ import (
 	"reflect"
 	"sort"
 	"strings"
+	"sync"
 	"time"
 
 	"github.com/grailbio/bigslice"
@@ -145,7 +146,11 @@ type Desc struct {
 	R    []string `json:"r,omitempty"`
 	Ops  []ArgOp  `json:"ops,omitempty"`
 	NRes int      `json:"nres,omitempty"` // results produced (and compiled on the worker) beforehand
-	Kind string   `json:"kind"`
+	// deps cases (K == "deps"): earlier result k was produced from nothing (-1)
+	// or from earlier result Pre[k]; none of them is compiled on the worker,
+	// which is a fresh machine reached through the executor's compile.
+	Pre  []int  `json:"pre,omitempty"`
+	Kind string `json:"kind"`
 }
 
 // ---------------------------------------------------------------- (a) diff
@@ -216,7 +221,9 @@ func funcFor(params []string) *bigslice.FuncValue {
 			vals[i] = a.Interface()
 			w += weight(vals[i])
 		}
+		logMu.Lock()
 		calls = append(calls, vals)
+		logMu.Unlock()
 		s := bigslice.Const(1+w%3, []int{1, 2, 3, 4, 5, 6})
 		return []reflect.Value{reflect.ValueOf(&s).Elem()}
 	})
@@ -226,6 +233,50 @@ func funcFor(params []string) *bigslice.FuncValue {
 }
 
 var fConst = bigslice.Func(func(n int) bigslice.Slice { return bigslice.Const(n, []int{1, 2, 3}) })
+
+// producers of the deps cases: each records (tag, slice it returned), on the
+// driver and again on the worker, so that a worker-local Result is recognised
+// by the slice it wraps
+type prodRec struct {
+	tag   int
+	slice bigslice.Slice
+}
+
+var (
+	logMu    sync.Mutex
+	produced []prodRec
+)
+
+func recordProduced(tag int, s bigslice.Slice) bigslice.Slice {
+	logMu.Lock()
+	produced = append(produced, prodRec{tag, s})
+	logMu.Unlock()
+	return s
+}
+
+var fProd = bigslice.Func(func(tag int) bigslice.Slice {
+	return recordProduced(tag, bigslice.Const(1+tag%3, []int{1, 2, 3}))
+})
+var fNest = bigslice.Func(func(tag int, r *exec.Result) bigslice.Slice {
+	return recordProduced(tag, bigslice.Map(r, func(x int) int { return x + 1 }))
+})
+
+func producedTag(r *exec.Result) (tag int, ok bool) {
+	defer func() {
+		if recover() != nil {
+			ok = false
+		}
+	}()
+	logMu.Lock()
+	defer logMu.Unlock()
+	s := exec.VerifC16ResultSlice(r)
+	for _, p := range produced {
+		if p.slice == s {
+			return p.tag, true
+		}
+	}
+	return 0, false
+}
 
 // world is the per-case state: the exec-side world and the results made so far.
 type world struct {
@@ -241,6 +292,9 @@ func (w *world) canon(v interface{}) string {
 	if r, ok := v.(*exec.Result); ok {
 		if r == nil {
 			return "(ATNil CResult)"
+		}
+		if tag, ok := producedTag(r); ok && tag >= 0 && tag < len(w.results) {
+			return vf.App("AResult", vf.Z(int64(tag)))
 		}
 		widx, onWorker := w.x.WorkerResultIndex(r)
 		for id, dr := range w.results {
@@ -542,6 +596,197 @@ func runInv(d Desc) (term string, observed interface{}, sig string) {
 	obs := vf.App("mkIObs", codec, vf.Bool(hdr), outcome, vf.Bool(names))
 	term = vf.App("CInv", vf.List(pterms), vf.List(aterms), vf.List(known), vf.List(known), obs)
 	return term, map[string]interface{}{"codec": codec, "world": outcome, "names_equal": names, "notes": notes}, invSig(d)
+}
+
+// runDeps sends an invocation with Result arguments to a fresh machine through
+// the executor's own compile, which must first send the invocations behind the
+// Results (transitively).
+func runDeps(d Desc) (term string, observed interface{}) {
+	w := &world{x: exec.VerifC16NewWorld()}
+	defer w.x.Close()
+	var notes []string
+	logMu.Lock()
+	produced, calls = nil, nil
+	logMu.Unlock()
+	var gterms []string
+	for k, parent := range d.Pre {
+		var inv bigslice.Invocation
+		deps := "[]"
+		if parent >= 0 && parent < k {
+			inv = fNest.Invocation("c16-pre", k, w.results[parent])
+			deps = vf.List([]string{vf.Z(int64(parent))})
+		} else {
+			inv = fProd.Invocation("c16-pre", k)
+		}
+		res, _, err := w.x.Driver(inv)
+		if err != nil {
+			panic(fmt.Sprintf("c16: cannot prepare result: %v", err))
+		}
+		// known to the executor (addInvocation + serialisation check), compiled nowhere
+		if returned, _, _ := w.x.RunPrefix(exec.VerifC16ResultIndex(res)); returned {
+			panic("c16: preparing a result: Run returned before asking for a machine")
+		}
+		w.results = append(w.results, res)
+		gterms = append(gterms, vf.Tuple(vf.Z(int64(k)), deps))
+	}
+	var (
+		params, pterms, aterms []string
+		args                   []interface{}
+		outcome                = "OWorkerErr"
+		odeps                  []string
+	)
+	for _, o := range d.Ops {
+		if o.P != "" {
+			params = append(params, o.P)
+			pterms = append(pterms, paramTerm(o.P))
+		}
+		if o.A != "" {
+			args = append(args, w.value(o))
+			aterms = append(aterms, argTerm(o, len(d.Pre)))
+		}
+	}
+	f := funcFor(params)
+	finished := guarded(func() {
+		var inv bigslice.Invocation
+		class := ""
+		func() {
+			defer func() {
+				if e := recover(); e != nil {
+					class = "panic"
+					if _, ok := e.(*typecheck.Error); ok {
+						class = "type"
+					}
+				}
+			}()
+			inv = f.Invocation("c16", append([]interface{}{}, args...)...)
+		}()
+		switch class {
+		case "type":
+			outcome = "OTypeErr"
+			return
+		case "panic":
+			outcome = "ORunPanic"
+			return
+		}
+		res, _, err := w.x.Driver(inv)
+		if err != nil {
+			notes = append(notes, fmt.Sprintf("driver-side invoke/compile failed: %v", err))
+			return
+		}
+		idx := exec.VerifC16ResultIndex(res)
+		returned, state, panicked := w.x.RunPrefix(idx)
+		for _, dep := range w.x.Deps(idx) {
+			id := int64(-1)
+			for k, dr := range w.results {
+				if exec.VerifC16ResultIndex(dr) == dep {
+					id = int64(k)
+				}
+			}
+			odeps = append(odeps, vf.Z(id))
+		}
+		switch {
+		case returned && panicked:
+			outcome = "ORunPanic"
+			return
+		case returned && state == exec.TaskErr:
+			outcome = "ORunErr"
+			return
+		case returned:
+			notes = append(notes, fmt.Sprintf("Run returned in state %v without asking for a machine", state))
+			return
+		}
+		m, err := w.x.FreshMachine()
+		if err != nil {
+			panic(fmt.Sprintf("c16: cannot start a test machine: %v", err))
+		}
+		defer w.x.ShutdownMachine(m)
+		logMu.Lock()
+		ncalls := len(calls)
+		logMu.Unlock()
+		if fatal, err := w.x.CompileOn(m, idx); err != nil {
+			msg := err.Error()
+			if len(msg) > 200 {
+				msg = msg[:200]
+			}
+			notes = append(notes, fmt.Sprintf("compile failed (fatal=%v): %s", fatal, msg))
+			return
+		}
+		logMu.Lock()
+		n, last := len(calls), calls[len(calls)-1]
+		logMu.Unlock()
+		if n != ncalls+1 {
+			notes = append(notes, "the Func was not applied exactly once on the worker")
+			return
+		}
+		outcome = vf.App("OArrived", w.canonList(last))
+	})
+	if !finished {
+		notes = append(notes, "watchdog: the case did not finish within 60 s")
+		outcome = "OWorkerErr"
+	}
+	term = vf.App("CDeps", vf.List(gterms), vf.List(pterms), vf.List(aterms), vf.List(odeps), outcome)
+	return term, map[string]interface{}{"world": outcome, "deps": odeps, "notes": notes}
+}
+
+// fixedDeps: 2 and 3 Result arguments from different invocations in different
+// orders and positions, repeated Results, nested Results (a Result whose own
+// invocation took a Result), through every parameter type a Result fits.
+func fixedDeps() []Desc {
+	res := func(p string, v int) ArgOp { return ArgOp{P: p, A: "res", V: v} }
+	intv := ArgOp{P: "PC CInt", A: "val", C: "CInt", V: 1}
+	R, S, A := "PC CResult", "PSliceI", "PAny"
+	mk := func(pre []int, ops ...ArgOp) Desc { return Desc{K: "deps", Pre: pre, Ops: ops, Kind: "inv/deps"} }
+	flat2, flat3 := []int{-1, -1}, []int{-1, -1, -1}
+	return []Desc{
+		mk([]int{-1}, res(R, 0)),
+		mk(flat2, res(R, 0), res(R, 1)),
+		mk(flat2, res(R, 1), res(R, 0)),
+		mk(flat2, res(S, 0), intv, res(A, 1)),
+		mk(flat2, res(A, 1), res(S, 0)),
+		mk(flat2, res(R, 0), res(R, 0), res(R, 1)),
+		mk(flat2, res(R, 1), res(R, 0), res(R, 0)),
+		mk(flat3, res(R, 0), res(R, 1), res(R, 2)),
+		mk(flat3, res(R, 2), res(R, 0), res(R, 1)),
+		mk(flat3, res(S, 1), res(A, 2), intv, res(R, 0)),
+		mk(flat3, res(A, 2), res(S, 1)),
+		mk([]int{-1, 0}, res(R, 1)),
+		mk([]int{-1, 0}, res(R, 1), res(R, 0)),
+		mk([]int{-1, 0}, res(R, 0), res(R, 1)),
+		mk([]int{-1, 0, 1}, res(R, 2)),
+		mk([]int{-1, 0, -1}, res(S, 1), res(A, 2)),
+		mk([]int{-1, 0, -1}, res(R, 2), res(R, 1)),
+		mk([]int{-1, -1, 0, 1}, res(R, 2), res(R, 3)),
+		mk([]int{-1, -1, 0, 1}, res(R, 3), intv, res(R, 2)),
+		mk([]int{-1, 0, 0}, res(R, 1), res(R, 2)),
+		mk([]int{-1, 0, 0}, res(R, 2), res(R, 1), res(R, 0)),
+		mk(flat2, intv),
+		mk(flat2, res(R, 0), ArgOp{P: "PC CChan", A: "val", C: "CChan"}, res(R, 1)),
+	}
+}
+
+func genDeps(r *vf.Rand) Desc {
+	n := r.Range(2, 4)
+	pre := make([]int, n)
+	for k := range pre {
+		pre[k] = -1
+		if k > 0 && r.Chance(2, 5) {
+			pre[k] = r.Intn(k)
+		}
+	}
+	d := Desc{K: "deps", Pre: pre, Kind: "inv/deps"}
+	m := r.Range(2, 4)
+	for i := 0; i < m; i++ {
+		switch k := r.Intn(10); {
+		case k < 7:
+			d.Ops = append(d.Ops, ArgOp{P: []string{"PC CResult", "PC CResult", "PSliceI", "PAny"}[r.Intn(4)], A: "res", V: r.Intn(n)})
+		case k < 9:
+			c := []string{"CInt", "CString", "CInts", "CStruct"}[r.Intn(4)]
+			d.Ops = append(d.Ops, ArgOp{P: "PC " + c, A: "val", C: c, V: r.Intn(len(ctValues[c]))})
+		default:
+			d.Ops = append(d.Ops, ArgOp{P: "PAny", A: "nil"})
+		}
+	}
+	return d
 }
 
 // invSig names the reason a case can fail for: the first nil argument that the
@@ -878,6 +1123,14 @@ func main() {
 			descs = append(descs, genLongDiff(root.Split()))
 		}
 		descs = append(descs, fixedInv()...)
+		descs = append(descs, fixedDeps()...)
+		ndeps := 12
+		if thorough {
+			ndeps = 150
+		}
+		for i := 0; i < ndeps*opts.Scale; i++ {
+			descs = append(descs, genDeps(root.Split()))
+		}
 		for i := 0; i < ninv*opts.Scale; i++ {
 			descs = append(descs, genInv(root.Split()))
 		}
@@ -891,6 +1144,9 @@ func main() {
 				nontriv = vf.Hash(term)
 			}
 			out.Add(vf.Case{Term: term, Desc: d, Sig: "diff", Nontriv: nontriv, Kind: d.Kind, Observed: obs})
+		case "deps":
+			term, obs := runDeps(d)
+			out.Add(vf.Case{Term: term, Desc: d, Sig: "inv-deps", Nontriv: vf.Hash(term), Kind: "inv/deps", Observed: obs})
 		case "inv":
 			term, obs, sig := runInv(d)
 			nontriv := ""
